@@ -48,7 +48,7 @@ def grammar_decoder(pair):
 
 ID = "C17"
 LEVEL = "exploration"
-BUDGET = {"quick": 80, "thorough": 1000}
+BUDGET = {"quick": 200, "thorough": 1200}
 ALPHABET = ["a", "e", "E", "1", "0", "_", "-", "+", ".", ":", "#", "'", '"', " ",
             "T", "Z"]
 RULE = (
